@@ -3,10 +3,13 @@
 package zzverifc07
 
 import (
+	"bytes"
 	"context"
 	"encoding/json"
 	"fmt"
 	"net"
+	"net/http"
+	"net/http/httptest"
 	"net/netip"
 	"net/url"
 	"os"
@@ -46,6 +49,7 @@ import (
 
 const (
 	c07SrvAddr  = "192.0.2.53:53"
+	c07DoHAddr  = "192.0.2.53:443"
 	c07FltGrpID = agd.FilteringGroupID("fg")
 	c07ListID   = filter.ID("adguard_dns_filter")
 )
@@ -65,6 +69,7 @@ func (m *c07Mgr) clearAll() {
 // fakes only at the edges.
 type c07Rig struct {
 	srv   *dnsserver.ServerDNS
+	doh   *dnsserver.ServerHTTPS
 	mgr   *c07Mgr
 	profs map[netip.Addr][2]any
 	errs  []string
@@ -226,6 +231,15 @@ func c07NewRig(dir string) *c07Rig {
 
 		return nil, nil, profiledb.ErrDeviceNotFound
 	}
+	db.OnProfileByDeviceID = func(_ context.Context, id agd.DeviceID) (*agd.Profile, *agd.Device, error) {
+		for _, pd := range rig.profs {
+			if d := pd[1].(*agd.Device); d.ID == id {
+				return pd[0].(*agd.Profile), d, nil
+			}
+		}
+
+		return nil, nil, profiledb.ErrDeviceNotFound
+	}
 	geo := &agdtest.GeoIP{
 		OnData: func(_ string, ip netip.Addr) (*geoip.Location, error) {
 			if ip.Is4() && ip.As4()[0] == 10 {
@@ -252,9 +266,11 @@ func c07NewRig(dir string) *c07Rig {
 	}
 	srv := &agd.Server{Name: "srv_dns", Protocol: agd.ProtoDNS, LinkedIPEnabled: true}
 	srv.SetBindData([]*agd.ServerBindData{{AddrPort: netip.MustParseAddrPort(c07SrvAddr)}})
+	srvDoH := &agd.Server{Name: "srv_doh", Protocol: agd.ProtoDoH}
+	srvDoH.SetBindData([]*agd.ServerBindData{{AddrPort: netip.MustParseAddrPort(c07DoHAddr)}})
 	srvGrp := &agd.ServerGroup{
 		DDR:     &agd.DDR{DeviceTargets: container.NewMapSet[string](), PublicTargets: container.NewMapSet[string]()},
-		Name:    "sg", FilteringGroup: c07FltGrpID, Servers: []*agd.Server{srv}, ProfilesEnabled: true,
+		Name:    "sg", FilteringGroup: c07FltGrpID, Servers: []*agd.Server{srv, srvDoH}, ProfilesEnabled: true,
 	}
 	handlers, err := dnssvc.NewHandlers(ctx, &dnssvc.HandlersConfig{
 		BaseLogger: c07Logger, Cloner: cloner,
@@ -284,13 +300,23 @@ func c07NewRig(dir string) *c07Rig {
 	if err != nil {
 		vrt.Fatalf("dnssvc.NewHandlers: %v", err)
 	}
-	var h dnsserver.Handler
-	for _, hh := range handlers {
-		h = hh
+	var h, hDoH dnsserver.Handler
+	for k, hh := range handlers {
+		if k.Server == srvDoH {
+			hDoH = hh
+		} else {
+			h = hh
+		}
+	}
+	if h == nil || hDoH == nil {
+		vrt.Fatalf("handlers: %d built, plain %v doh %v", len(handlers), h != nil, hDoH != nil)
 	}
 	rig.srv = dnsserver.NewServerDNS(dnsserver.ConfigDNS{
 		ConfigBase:     dnsserver.ConfigBase{Name: "srv_dns", Addr: c07SrvAddr, Handler: h, Disposer: cloner},
 		MaxUDPRespSize: 4096,
+	})
+	rig.doh = dnsserver.NewServerHTTPS(dnsserver.ConfigHTTPS{
+		ConfigBase: dnsserver.ConfigBase{Name: "srv_doh", Addr: c07DoHAddr, Handler: hDoH, Disposer: cloner},
 	})
 
 	return rig
@@ -306,6 +332,11 @@ type c07Req struct {
 	EDNS   bool   `json:"edns,omitempty"`
 	DO     bool   `json:"do,omitempty"`
 	ECS    string `json:"ecs,omitempty"`
+	// DoH requests go through the real DoH handler (POST, wire format), whose
+	// response is recorded first and packed and written afterwards; Path is the
+	// URL path (a device ID may follow /dns-query/).
+	DoH  bool   `json:"doh,omitempty"`
+	Path string `json:"path,omitempty"`
 }
 
 var c07Alphabet = []c07Req{
@@ -320,6 +351,8 @@ var c07Alphabet = []c07Req{
 	{Name: "p1-clean-https-do", Client: "10.1.0.1", Host: "clean.test.", QType: dns.TypeHTTPS, EDNS: true, DO: true},
 	{Name: "p2-custom", Client: "10.2.0.1", Host: "custom-p2.test.", QType: dns.TypeAAAA},
 	{Name: "p1-engine", Client: "10.1.0.1", Host: "engine.test.", QType: dns.TypeA},
+	{Name: "doh-p1-blocked", Client: "10.4.0.1", Host: "blocked.test.", QType: dns.TypeA, EDNS: true, DoH: true, Path: "/dns-query/dev1"},
+	{Name: "doh-anon-clean", Client: "10.4.0.2", Host: "clean.test.", QType: dns.TypeA, DoH: true, Path: "/dns-query"},
 }
 
 func (q c07Req) wire(id uint16) []byte {
@@ -358,6 +391,9 @@ func (c *c07Conn) SetWriteDeadline(time.Time) error { return nil }
 // serve runs one request through the server and returns the canonical form
 // of what the client received.
 func (rig *c07Rig) serve(q c07Req, id uint16) string {
+	if q.DoH {
+		return rig.serveDoH(q, id)
+	}
 	conn := &c07Conn{}
 	raddr := &net.UDPAddr{IP: net.IP(netip.MustParseAddr(q.Client).AsSlice()), Port: 40000 + int(id)}
 	ctx := dnsserver.ContextWithRequestInfo(context.Background(), &dnsserver.RequestInfo{StartTime: time.Unix(1700000000, 0)})
@@ -367,6 +403,26 @@ func (rig *c07Rig) serve(q c07Req, id uint16) string {
 	}
 	m := &dns.Msg{}
 	if err := m.Unpack(conn.written[0]); err != nil {
+		return "undecodable response: " + err.Error()
+	}
+
+	return vdns.Canon(m, true) + " opt={" + vdns.OPTString(m) + "}"
+}
+
+// serveDoH runs one request through the real DoH handler, in the calling
+// goroutine.
+func (rig *c07Rig) serveDoH(q c07Req, id uint16) string {
+	hr := httptest.NewRequest(http.MethodPost, "https://dns.test"+q.Path, bytes.NewReader(q.wire(id)))
+	hr.Header.Set("Content-Type", "application/dns-message")
+	hr.Header.Set("Accept", "application/dns-message")
+	hr.RemoteAddr = netip.AddrPortFrom(netip.MustParseAddr(q.Client), 40000+id).String()
+	rec := httptest.NewRecorder()
+	rig.doh.VerifC07ServeHTTP(rec, hr)
+	if rec.Code != http.StatusOK {
+		return fmt.Sprintf("http status %d: %s", rec.Code, strings.TrimSpace(rec.Body.String()))
+	}
+	m := &dns.Msg{}
+	if err := m.Unpack(rec.Body.Bytes()); err != nil {
 		return "undecodable response: " + err.Error()
 	}
 
@@ -512,28 +568,9 @@ func c07Main(t *testing.T, r *vrt.Run) {
 	if r.ReplayCase("stack", &rc) {
 		var fs []vrt.Finding
 		if os.Getenv("VERIF_REPLAY_MODE") == "prefix" {
-			// Re-run the exploration of the scenario from its start up to the
-			// recorded schedule: reproduces the pool population too.
-			c07Prelude(rig)
-			var env *c07Env
-			var solo []string
-			p := vrt.Pick(r, 1, 2)
-			if len(rc.Scenario.Reqs) > 2 {
-				p = 1
-			}
-			xsched.Explore(xsched.Config{MaxPreemptions: p, MaxDeviations: 0},
-				func(s *xsched.Sched) {
-					solo = c07Prepare(rig, rc.Scenario)
-					env = c07Setup(rig, rc.Scenario, s)
-				},
-				func(x *xsched.Exec) bool {
-					if fmt.Sprint(x.Choices) != fmt.Sprint(rc.Choices) {
-						return true
-					}
-					fs = c07Check(rig, rc.Scenario, golden, solo, env, x)
-
-					return false
-				})
+			// Re-run the exploration of the whole shard from its start up to
+			// the recorded schedule: reproduces the pool population too.
+			fs = c07Explore(r, rig, golden, &rc)
 		} else {
 			c07Prelude(rig)
 			solo := c07Prepare(rig, rc.Scenario)
@@ -545,67 +582,91 @@ func c07Main(t *testing.T, r *vrt.Run) {
 		r.Report("stack", rc, fs)
 	}
 	if r.ShouldRun() {
-		shard, nshards := r.NShards()
-		pre := vrt.Pick(r, 1, 2)
-		r.Bound("stack_preemptions", pre)
-		var scenarios []c07Scenario
-		n := len(c07Alphabet)
-		for a := 0; a < n; a++ {
-			for b := a; b < n; b++ {
-				scenarios = append(scenarios, c07Scenario{Reqs: []int{a, b}})
-			}
-		}
-		if r.Thorough() {
-			for _, tr := range [][]int{{0, 1, 2}, {2, 3, 4}, {6, 7, 8}, {1, 5, 9}, {4, 6, 10}} {
-				scenarios = append(scenarios, c07Scenario{Reqs: tr})
-			}
-		}
-		r.Bound("stack_scenarios", len(scenarios))
-		execs := 0
-		for si, sc := range scenarios {
-			if si%nshards != shard {
-				continue
-			}
-			p := pre
-			if len(sc.Reqs) > 2 {
-				p = 1
-			}
-			var env *c07Env
-			var solo []string
-			found := 0
-			c07Prelude(rig)
-			st := xsched.Explore(xsched.Config{MaxPreemptions: p, MaxDeviations: 0, Stop: r.Expired},
-				func(s *xsched.Sched) {
-					execs++
-					if execs%2000 == 0 {
-						runtime.GC()
-					}
-					solo = c07Prepare(rig, sc)
-					env = c07Setup(rig, sc, s)
-				},
-				func(x *xsched.Exec) bool {
-					r.Eval()
-					r.Trans(len(x.Sched.Trace))
-					fs := c07Check(rig, sc, golden, solo, env, x)
-					obs := fmt.Sprintf("%v|%v", sc.Reqs, env.got)
-					r.Class(fmt.Sprintf("%d requests", len(sc.Reqs)))
-					if r.State(obs) {
-						r.Sample(map[string]any{"requests": sc.Reqs, "answers": env.got, "preemptions": x.Preemptions})
-					}
-					if len(fs) > 0 {
-						r.Report("stack", c07Case{Scenario: sc, Choices: x.Choices}, fs)
-						found++
-					}
+		c07Explore(r, rig, golden, nil)
+	}
+	rig.srv.VerifC07Release()
+	r.Finish()
+	os.Exit(0)
+}
 
-					return found < 1
-				})
+// c07Explore explores the scenarios of this shard.  With stopAt set it is the
+// prefix replay of a recorded case: the same exploration is repeated, nothing
+// is reported, and the findings of the recorded execution are returned.
+func c07Explore(r *vrt.Run, rig *c07Rig, golden map[int]string, stopAt *c07Case) (res []vrt.Finding) {
+	shard, nshards := r.NShards()
+	pre := vrt.Pick(r, 1, 2)
+	var scenarios []c07Scenario
+	n := len(c07Alphabet)
+	for a := 0; a < n; a++ {
+		for b := a; b < n; b++ {
+			scenarios = append(scenarios, c07Scenario{Reqs: []int{a, b}})
+		}
+	}
+	if r.Thorough() {
+		for _, tr := range [][]int{{0, 1, 2}, {2, 3, 4}, {6, 7, 8}, {1, 5, 9}, {4, 6, 10}, {0, 11, 12}, {7, 11, 12}} {
+			scenarios = append(scenarios, c07Scenario{Reqs: tr})
+		}
+	}
+	if stopAt == nil {
+		r.Bound("stack_preemptions", pre)
+		r.Bound("stack_scenarios", len(scenarios))
+	}
+	execs := 0
+	done := false
+	for si, sc := range scenarios {
+		if si%nshards != shard || done {
+			continue
+		}
+		p := pre
+		if len(sc.Reqs) > 2 {
+			p = 1
+		}
+		var env *c07Env
+		var solo []string
+		found := 0
+		c07Prelude(rig)
+		target := stopAt != nil && fmt.Sprint(sc.Reqs) == fmt.Sprint(stopAt.Scenario.Reqs)
+		st := xsched.Explore(xsched.Config{MaxPreemptions: p, MaxDeviations: 0, Stop: r.Expired},
+			func(s *xsched.Sched) {
+				execs++
+				if execs%2000 == 0 {
+					runtime.GC()
+				}
+				solo = c07Prepare(rig, sc)
+				env = c07Setup(rig, sc, s)
+			},
+			func(x *xsched.Exec) bool {
+				fs := c07Check(rig, sc, golden, solo, env, x)
+				if stopAt != nil {
+					if target && fmt.Sprint(x.Choices) == fmt.Sprint(stopAt.Choices) {
+						res, done = fs, true
+
+						return false
+					}
+					// The first finding of a scenario ends its exploration.
+					return len(fs) == 0
+				}
+				r.Eval()
+				r.Trans(len(x.Sched.Trace))
+				obs := fmt.Sprintf("%v|%v", sc.Reqs, env.got)
+				r.Class(fmt.Sprintf("%d requests", len(sc.Reqs)))
+				if r.State(obs) {
+					r.Sample(map[string]any{"requests": sc.Reqs, "answers": env.got, "preemptions": x.Preemptions})
+				}
+				if len(fs) > 0 {
+					r.Report("stack", c07Case{Scenario: sc, Choices: x.Choices}, fs)
+					found++
+				}
+
+				return found < 1
+			})
+		if stopAt == nil {
 			r.Count("stack_points", st.Points)
 			if st.Stopped {
 				r.Note("scenario %v stopped by deadline after %d executions", sc.Reqs, st.Executions)
 			}
 		}
 	}
-	rig.srv.VerifC07Release()
-	r.Finish()
-	os.Exit(0)
+
+	return res
 }
